@@ -219,7 +219,9 @@ Definition wds_generate (idx : index) (ty : xds_type) (q : wreq) (v : view) : ge
   else if negb wild then
     let addresses := norm ((if w_isreq q then dl_sub d else inter (w_updated q) wn) ++ w_addl q) in
     if is_nil addresses then
-      (if w_isreq q then mkGen (Some []) None false false None else gen_none)
+      (* a request is answered even with nothing to send - as a delta answer (usedDelta), so that
+         pushDeltaXds does not take it for the full state (/repo fix 121b6aa) *)
+      (if w_isreq q then mkGen (Some []) None true false None else gen_none)
     else
       let '(addrs, removed) := address_information idx addresses in
       mkGen (Some (flat_map (append_address ty (dl_init d)) addrs))
